@@ -15,6 +15,8 @@ SUFFIXES = {'k': 1000, '%': 0.01}
 
 
 def scope():
+    junk = [lambda a, b, c: a, lambda: 0, lambda a, b: b, lambda a: a]   # freed at once: their ids are up for reuse
+    del junk
     funcs = {'f': lambda a: a + 1, 'g': lambda a, b: a - 2 * b}
     return dict(VARS), funcs, dict(SUFFIXES)
 
@@ -158,6 +160,8 @@ NUMS = [('2', 2, 1), ('3', 3, 1), ('0.5', 1, 2), ('1.5', 3, 2), ('10', 10, 1), (
 
 
 def t_scope():
+    junk = [lambda a, b, c: a, lambda: 0, lambda a, b: b]          # freed at once: their ids are up for reuse
+    del junk
     funcs = {'f': lambda a: a + 1, 'g': lambda a, b: a - 2 * b, 'x': lambda a: a * a}
     return dict(T_VARS), funcs, dict(T_SUFFIXES)
 
@@ -323,6 +327,8 @@ def trace_chunk(items, extra):
             case = rand_case(rng, start + k)
             if not case['text'].strip():
                 continue
+            if k % 2 == 0:
+                sc = t_scope()    # new function objects of different arities under the same names
             o = observe(case['text'], evaluator, sc)
             case['obs'] = obs_record(o)
             out.append(case)
